@@ -346,6 +346,18 @@ func (g *CondGen) atom() *Cond {
 			return &Cond{K: "cmp", Op: pick(g.r, []string{"=", "<>"}), L: lz, R: &Operand{Kind: "val", Val: lst}}
 		}
 	}
+	if g.r.Chance(4) {
+		// two paths against one another where the item has neither (or just one): an operand without a value equals nothing,
+		// not even another operand without a value
+		absent := func() *Operand {
+			return &Operand{Kind: "path", Root: []byte(pick(g.r, []string{"nosuch", "zz", "nosuch2", "gone"}))}
+		}
+		l, r := absent(), absent()
+		if g.r.Chance(30) {
+			r = g.pathTo("")
+		}
+		return &Cond{K: "cmp", Op: pick(g.r, []string{"=", "<>", "=", "<>", "<"}), L: l, R: r}
+	}
 	if g.r.Chance(8) {
 		// structural equality: a set, list or map against the same value written differently (set elements and
 		// map entries in another order, numerals respelt), or against a neighbour
